@@ -29,7 +29,7 @@ impl<'a> ConnectionMatrix<'a> {
         ensures r == self.num_right
 //@end
 }
-pub struct CharacterCategory { _p: () }
+#[verifier::external_body] pub struct CharacterCategory { _p: () }
 // Rc: the associated const `Grammar::INHIBITED_CONNECTION` extracted as a free const (an associated const of a lifetime-generic impl
 // crashes the installed Verus); its use is rewritten accordingly
 //@extract sudachi/src/dic/grammar.rs :: impl<'a> Grammar<'a> :: const INHIBITED_CONNECTION
@@ -52,8 +52,8 @@ impl<'a> Grammar<'a> {
             final(self).pos_list == old(self).pos_list,
 //@end
 }
-pub struct Value { _p: () }
-pub struct Config { _p: () }
+#[verifier::external_body] pub struct Value { _p: () }
+#[verifier::external_body] pub struct Config { _p: () }
 //@extract sudachi/src/plugin/connect_cost/inhibit_connection.rs :: struct PluginSettings
 //@  derive
 //@  attr
